@@ -185,6 +185,19 @@ class Q(object):
         self.t[0] = n
         self.u[0] = n
         return True
+def _halves(v):
+    return (v >> 12) & 0xfff, v & 0xfff
+def _not_tuple(v):
+    w = v + 1
+    return w, v
+def two(a: int, b: int) -> int:
+    return a ^ b
+def star_ok(v: int) -> int:
+    return two(*_halves(v))
+def star_bad(v: int) -> int:
+    return two(*_not_tuple(v))
+def star_expr(v: int) -> int:
+    return two(*_halves(v + 1))
 def binones(a: int, n: int) -> int:
     return bin(a)[2:n + 2].count('1')
 def cond_raise_while(b: bytes, j: int) -> int:
@@ -245,6 +258,10 @@ CASES = [   # (function, extra spec, expected substring of the error | None = mu
     ("Q.fill", {"params": {"self": ("Q", [("t", "ints")]), "n": "int"}}, "assignment to the attribute"),
     ("Q.fill_other", {"params": {"self": ("Q", [("t", "ints"), ("u", "ints")]), "n": "int"}, "mutates": ["t"]},
      "assignment to the attribute"),
+    ("two", {}, None),
+    ("star_ok", {}, None),                                   # f(*h(v)) with h a one-line tuple-returning helper
+    ("star_bad", {}, "single `return"),
+    ("star_expr", {}, "only names / constants"),
     ("binones", {}, "cannot show it is >= 0"),
     ("binones", {"ranges": {"n": (0, 64)}}, None),           # short-circuit `and` with a raising right operand
 
